@@ -433,7 +433,8 @@ static void space_chains(void)
 static void space_sweeps(void)
 {
 	static const uint32_t sizes[] = { 0, 1, 5, 0xFFFF, 0x10000, 0x7FFFFFFF, 0x80000000u, 0xFFFFFFFFu };
-	static const char *names[] = { "UPPER.TXT", "MiXeD.TxT", "lower.txt", "\x83\x65\x83\x58.TXT", "DIR\\SUB\\UP.BIN", "Dir\\up.bin", "A", "12345.678" };
+	static const char *names[] = { "UPPER.TXT", "MiXeD.TxT", "lower.txt", "\x83\x65\x83\x58.TXT", "DIR\\SUB\\UP.BIN", "Dir\\up.bin", "A", "12345.678",
+	                               "..cache\\F.TXT", "a\\...\\b.c", "..\\UP\\..x\\Y", ".hidden\\..\\Z" };
 	static uint8_t longname[1 << 20];
 	int level, os, ni, k;
 	unsigned si;
@@ -442,7 +443,7 @@ static void space_sweeps(void)
 	/* (1) every OS type x name case classes x levels */
 	for (level = 0; level <= 3; ++level)
 	for (os = 0; os < 256; ++os)
-	for (ni = 0; ni < 8; ++ni) {
+	for (ni = 0; ni < 12; ++ni) {
 		if (level == 0 && os != 0) continue;
 		if (!vf_case("sweep os=%d level=%d name=%s", os, level, names[ni])) continue;
 		hdr_init(&f, level, "-lh5-");
